@@ -2335,7 +2335,12 @@ async fn handle_packet(
                     if authenticated {
                         mark_received(&inner);
                     }
-                    handle_stun_request(&sender, &msg, addr, inner, authenticated).await;
+                    // A nomination (USE-CANDIDATE) retargets the media path, so it must prove
+                    // knowledge of our ICE password in every mode; credential-less RTP-mode peers
+                    // do not nominate.
+                    let may_nominate = stun_request_authenticated(packet, &inner);
+                    handle_stun_request(&sender, &msg, addr, inner, authenticated, may_nominate)
+                        .await;
                 } else if msg.class == StunClass::SuccessResponse {
                     let mut map = inner.pending_transactions.lock();
                     if let Some(tx) = map.remove(&msg.transaction_id) {
@@ -2472,6 +2477,7 @@ async fn handle_stun_request(
     addr: SocketAddr,
     inner: Arc<IceTransportInner>,
     authenticated: bool,
+    may_nominate: bool,
 ) {
     let response = StunMessage::binding_success_response(msg.transaction_id, addr);
 
@@ -2591,7 +2597,7 @@ async fn handle_stun_request(
 
     complete_controlled_inbound_tcp_nomination(sender, addr, inner.clone()).await;
 
-    if msg.use_candidate {
+    if msg.use_candidate && may_nominate {
         let role = *inner.role.lock();
         if role == IceRole::Controlled {
             // TCP passive nomination is handled above; UDP still uses USE-CANDIDATE below.
